@@ -512,9 +512,14 @@ impl<P: ProcessRun> Run<'_, P> {
         metrics: &mut RunMetrics,
     ) -> Result<(), Failed> {
         for uri in task.tal.uris() {
-            let cert = match self.load_ta(uri, task.tal.info())? {
-                Some(cert) => cert,
-                _ => continue,
+            let cert = match self.load_ta(uri, task.tal.info()) {
+                Ok(Some(cert)) => cert,
+                Ok(None) => continue,
+                Err(err) => {
+                    // The error has been logged. Make sure the run fails.
+                    self.run_failed(RunFailed::fatal());
+                    return Err(err)
+                }
             };
             if cert.subject_public_key_info() != task.tal.key_info() {
                 warn!(
@@ -539,8 +544,8 @@ impl<P: ProcessRun> Run<'_, P> {
 
             match self.processor.process_ta(
                 task.tal, uri, &cert, cert.tal
-            )? {
-                Some(processor) => {
+            ) {
+                Ok(Some(processor)) => {
                     return self.process_ca_task(
                         CaTask {
                             cert, processor,
@@ -550,9 +555,13 @@ impl<P: ProcessRun> Run<'_, P> {
                         tasks, metrics,
                     )
                 }
-                None => {
+                Ok(None) => {
                     debug!("Skipping trust anchor {uri}.");
                     return Ok(())
+                }
+                Err(err) => {
+                    self.run_failed(RunFailed::fatal());
+                    return Err(err)
                 }
             }
         }
